@@ -123,6 +123,12 @@ def run(ctx):
         els = q.star_elements(on[0].value.args[1])
         ok = bool(els) and len(els) == 1 and els[0][2] == "range(10)" and norm(els[0][0]) == f"self.input[{els[0][1]}]"
     ctx.ob("K3", F, "Decoder", "ones = sum of the ten input bits", ok, "" if ok else f"{[a.v for a in on]}")
+    # the count is taken with every word the decoder takes: same enable as the decoded outputs (k is cleared under it), whatever
+    # the word looks like -- otherwise `invalid` describes an earlier word
+    kz = [a for a in fx.find(domain="sync", target="self.k") if a.v == "0"]
+    ok = len(on) == 1 and len(kz) == 1 and q.EQ(on[0], B.A("self.ce")) and B.equivalent(B.guard_formula(kz[0].guards), B.A("self.ce"))
+    ctx.ob("K3", F, "Decoder", "ones-count registered for every accepted word (enable = ce, as the decoded outputs)", ok,
+           "" if ok else f"ones <= under {[a.gtext() for a in on]}; k <= 0 under {[a.gtext() for a in kz]}")
     try:
         t56 = const_fold(m.const("table_5b6b"))
         t34 = const_fold(m.const("table_3b4b"))
